@@ -24,7 +24,7 @@ def nontrivial(o):
 def _nontrivial(o):
     s = o["scn"]
     if s["mode"] == "rt":
-        if s["ty"] in ("Map", "OMap", "Opt", "OptEnd", "SeqS", "SeqN", "Seq2", "TupSeq"):
+        if s["ty"] in ("Map", "OMap", "Opt", "OptEnd", "SeqS", "SeqN", "Seq2", "TupSeq", "TsSeq"):
             return True
         for f in s["val"]:
             for e in f["v"]:
